@@ -600,6 +600,12 @@ func init() {
 			})
 		}
 		c.runJobs(jobs)
+		// the same files from the readers callers actually pass (seekable, positioned inside a larger object, files)
+		for i, f := range genC05Files(c) {
+			if i%9 == 0 && len(f.Data) < 20000 {
+				checkSourceKinds(c, "C05", f.Name, f.Data, []string{"auto", f.Fmt}, c.rng)
+			}
+		}
 		// cross-check of the extraction: what the extracted model answered for a few small files is re-decided
 		// in the kernel on the un-extracted definitions (first_success = what autometa's model returns)
 		if c.runner != nil {
